@@ -46,6 +46,8 @@ partial def loop (h : IO.FS.Stream) (u : U) : IO Unit := do
   | ["idecl", _, _] => IO.println "ok"; loop h u      -- implementer(I)(instance): declares what the instance's *products* implement; nothing any query here sees
   | ["inst", o, c] => IO.println "ok"; loop h { u with cw := u.cw.setInst o.toNat! { cls := c.toNat! } }
   | ["first", c, xs] => IO.println "ok"; loop h (declOp u fun w => classImplementsFirst F w c.toNat! (nums xs).head!)
+  | ["addspec", c, hc] =>          -- classImplements(C, implementedBy(H)): another class's specification among the declared ones
+      IO.println "ok"; loop h (declOp u fun w => let (w, hs) := implementedBy F w hc.toNat!; classImplements F w c.toNat! [hs])
   | ["add", c, xs] => IO.println "ok"; loop h (declOp u fun w => classImplements F w c.toNat! (nums xs))
   | ["only", c, xs] => IO.println "ok"; loop h (declOp u fun w => classImplementsOnly F w c.toNat! (nums xs))
   | ["dp", o, xs] => IO.println "ok"; loop h (declOp u fun w => directlyProvides F w o.toNat! (nums xs))
